@@ -427,8 +427,8 @@ pub fn att_change(a: &RefState, b: &RefState, s: RefSlot) -> &'static str {
             Atom(..) => "attachment-kept",
         },
         (Some(Atom(..)), Some(Atom(..))) => "attachment-changed",
-        (Some(Atom(..)), Some(Descend(_))) => "portal-open-over-atom",
-        (Some(Descend(_)), Some(Atom(..))) => "portal-close-to-atom",
+        (Some(Atom(..)), Some(Descend(_))) => "portal-open",
+        (Some(Descend(_)), Some(Atom(..))) => "portal-close",
         (Some(Descend(_)), Some(Descend(_))) => "portal-retarget",
     }
 }
